@@ -95,6 +95,8 @@ CONST_GROUPS = {
     "cipher": "internal/security/cipher",
     "license": "internal/security/license",
     "mqtt": "internal/network/mqtt",
+    "message": "internal/message",
+    "cluster": "internal/service/cluster",
 }
 
 
